@@ -863,7 +863,7 @@ def run(ctx):
                     hist_corpus.append((body['ops'], body['pool'], 'corpus:' + fn))
     for name, ws in TARGETED:
         cases.append(dict(ws=copy.deepcopy(ws), fault=None, label='targeted:' + name))
-    ngen = ctx.n(70, 1200)
+    ngen = ctx.n(100, 1200)
     for i in range(ngen):
         ws = gen_ws(rng)
         if rng.random() < 0.22:
@@ -951,7 +951,7 @@ def run(ctx):
 
     ctx.log('cycles done')
     # ---- histories ----
-    nh = ctx.n(8, 80)
+    nh = ctx.n(10, 80)
     hstats = dict(histories=0, ops=0, imports=0, imports_of_reexported_dir=0, errors=0)
     hists = list(hist_corpus)
     # the minimal stale pattern, same structure (same file size) and different structure
